@@ -185,6 +185,14 @@ func (t *codecTransport) Close() error {
 	return nil
 }
 
+// inject queues broker->client bytes.
+func (t *codecTransport) inject(b []byte) {
+	t.mu.Lock()
+	t.in = append(t.in, b...)
+	t.cond.Broadcast()
+	t.mu.Unlock()
+}
+
 // waitWrites waits until at least n Write calls happened.
 func (t *codecTransport) waitWrites(n int, d time.Duration) bool {
 	deadline := time.Now().Add(d)
@@ -460,11 +468,13 @@ func codecInbound(sc *codecScenario, res *codecResult) {
 	cli := &mqtt.BaseClient{Transport: t}
 	var mu sync.Mutex
 	var got []*mqtt.Message
+	var kept []*mqtt.Message // the messages themselves: ownership passes to the handler
 	served := make(chan struct{}, 16)
 	cli.Handle(mqtt.HandlerFunc(func(x *mqtt.Message) {
 		c := &mqtt.Message{Topic: x.Topic, ID: x.ID, QoS: x.QoS, Retain: x.Retain, Dup: x.Dup, Payload: append([]byte{}, x.Payload...)}
 		mu.Lock()
 		got = append(got, c)
+		kept = append(kept, x)
 		mu.Unlock()
 		served <- struct{}{}
 	}))
@@ -488,8 +498,46 @@ func codecInbound(sc *codecScenario, res *codecResult) {
 		timedOut = true
 	}
 	acks, _ := t.after(1)
+	// a later packet from the broker must not change what was handed over: follow up with a QoS 0 PUBLISH
+	// whose body is at least as long, filled with a different byte
+	if !timedOut {
+		fill := make([]byte, len(payload)+len(topic)+8)
+		for i := range fill {
+			fill[i] = 0xEE
+		}
+		tr := []byte{0x30}
+		tl := 2 + 1 + len(fill)
+		for {
+			d := byte(tl % 128)
+			tl /= 128
+			if tl > 0 {
+				d |= 0x80
+			}
+			tr = append(tr, d)
+			if tl == 0 {
+				break
+			}
+		}
+		tr = append(tr, 0x00, 0x01, 'z')
+		tr = append(tr, fill...)
+		t.inject(tr)
+		select {
+		case <-served:
+		case <-time.After(codecTimeout):
+		}
+	}
 	mu.Lock()
 	defer mu.Unlock()
+	if len(got) >= 1 && len(kept) >= 1 {
+		if d := codecDiff(kept[0].Payload, got[0].Payload); d != "" || kept[0].Topic != got[0].Topic {
+			res.Why = "the message handed to the handler changed when a later packet arrived (payload: " + d + ")"
+			res.Packets = expectWrites
+			return
+		}
+		if len(got) > 1 {
+			got = got[:1]
+		}
+	}
 	res.Packets = expectWrites
 	res.Facts["delivered"] = len(got)
 	res.Facts["timeout"] = timedOut
